@@ -1874,10 +1874,26 @@ class InterpComp:
                            (self.ev(node.key, sub), self.ev(node.value, sub)))
         return out
 
+    def comp_with_invariant(self, n, fr):
+        """comprehension carrying a sidecar invariant (comp<K>_inv): executed as the loop it abbreviates"""
+        if self.mode != EXEC or fr.fi is None:
+            return None
+        from . import loops
+        ps = loops.comp_spec(self, fr, n)
+        if ps is None:
+            return None
+        return loops.comp_as_loop(self, n, fr, ps)
+
     def ev_ListComp(self, n, fr):
+        v = self.comp_with_invariant(n, fr)
+        if v is not None:
+            return v
         return self.reg.listcomp(self, n, fr)
 
     def ev_SetComp(self, n, fr):
+        v = self.comp_with_invariant(n, fr)
+        if v is not None:
+            return v
         q = self.quantified_gen(GenV(n, fr), 'elems')
         if q[0] == 'const':
             items = self.eval_gen_const(*q[1:])
